@@ -262,6 +262,7 @@ structure Method where
   reads : List Var
   fn : Nat
   peek : List Peek := []
+  whenPresent : List (Var × List Var) := []   -- `if "x" in ds: <read these through their getters>`
   numpyOnly : List Var := []     -- as-is: fails when one of these is dask-backed
   forced : List Write := []      -- as-is: `compute_face_areas` stores its jacobian on the grid
   deriving Repr
@@ -341,7 +342,9 @@ def stepGrid (M : Model) (g : Grid) (gl : Globals) : Op → Grid × Globals × R
   | .method m =>
     let md := M.method m
     let T := M.table g.sigF
-    let r := getMany T FUEL md.reads (g.st, gl)
+    let extra := md.whenPresent.flatMap (fun p => if (g.st p.1).isSome then p.2 else [])
+    let r0 := getMany T FUEL extra (g.st, gl)
+    let r := getMany T FUEL md.reads r0.1
     if anyChunked r.1.1 md.numpyOnly then ({ g with st := r.1.1 }, r.1.2, .err 1) else
     let t := mkApp md.fn (r.2 ++ md.peek.map (peekVal r.1.1))
     let σ := md.forced.foldl (doWrite r.1.1) r.1
@@ -428,7 +431,7 @@ structure Flags where
 
 open Var in
 /-- transcription of `uxarray/grid/{grid,connectivity,coordinates,neighbors,geometry}.py` -/
-def uxUnit (fl : Flags) (sig : Var → Bool) : Var → Unit
+def uxUnit (fl : Flags) (_sig : Var → Bool) : Var → Unit
   | nodeLL => ⟨[nodeXYZ], [{ var := nodeLL, fn := F.llOfXYZ, args := [.val nodeXYZ], ranged := !fl.rawNodeLon }]⟩
   | nodeXYZ => ⟨[nodeLL], [{ var := nodeXYZ, fn := F.xyzOfLL, args := [.val nodeLL] }]⟩
   | faceNode => ⟨[], []⟩
@@ -458,14 +461,15 @@ def uxUnit (fl : Flags) (sig : Var → Bool) : Var → Unit
        { var := edgeLL, guard := [.absent edgeLL, .present edgeXYZ], fn := F.llOfXYZnorm, args := [.val edgeXYZ] },
        { var := edgeXYZ, guard := [.absent edgeLL, .absent edgeXYZ], fn := F.edgeMidXYZ, args := [.val nodeXYZ, .val edgeNode] },
        { var := edgeXYZ, guard := [.present edgeLL, .absent edgeXYZ], fn := F.xyzOfLL, args := [.val edgeLL] }]⟩
-  | areas | jac =>
-      -- `face_areas` present (MPAS `areaCell`): nothing is computed, `_face_jacobian` stays None
-      if sig areas then
-        ⟨[], [{ var := jac, guard := [.present areas], fn := F.noneVal, args := [] }]⟩
-      else
-        ⟨[nodeLL, faceNode, nPer],
-         [{ var := areas, guard := [.absent areas], fn := F.areaDefault, args := [.val nodeLL, .val faceNode, .val nPer] },
-          { var := jac, guard := [.absent areas], fn := F.jacDefault, args := [.val nodeLL, .val faceNode, .val nPer] }]⟩
+  -- `face_jacobian`: `if self._face_jacobian is None: _, self._face_jacobian = self.compute_face_areas()`
+  -- (whether or not `face_areas` is stored; it no longer touches `face_areas`)
+  | jac => ⟨[nodeLL, faceNode, nPer],
+      [{ var := jac, fn := F.jacDefault, args := [.val nodeLL, .val faceNode, .val nPer] }]⟩
+  -- `face_areas`: `face_areas, self._face_jacobian = self.compute_face_areas()`; the jacobian it leaves
+  -- in the cell is the one the `face_jacobian` unit computes (same call, same inputs), transcribed as
+  -- a read of that cell before the areas are stored
+  | areas => ⟨[nodeLL, faceNode, nPer, jac],
+      [{ var := areas, fn := F.areaDefault, args := [.val nodeLL, .val faceNode, .val nPer] }]⟩
   | bounds => ⟨[faceNode, faceEdge, nodeXYZ, nodeLL], [{ var := bounds, fn := F.bounds, args := [.val faceNode, .val nodeXYZ, .val nodeLL] }]⟩
   | enDist => ⟨[nodeLL, edgeNode], [{ var := enDist, fn := F.enDist, args := [.val nodeLL, .val edgeNode] }]⟩
   | efDist => ⟨[faceLL, edgeFace], [{ var := efDist, fn := F.efDist, args := [.val faceLL, .val edgeFace] }]⟩
@@ -480,8 +484,8 @@ def uxRank : Var → Nat
   | faceEdge => 2
   | edgeFace => 3
   | faceFace | holes => 4
-  | faceLL | faceXYZ | edgeLL | edgeXYZ | areas | jac | amIdx | enDist | enZ => 2
-  | bounds => 3
+  | faceLL | faceXYZ | edgeLL | edgeXYZ | jac | amIdx | enDist | enZ => 2
+  | bounds | areas => 3
   | efDist => 4
 
 def uxTable (fl : Flags) (sig : Var → Bool) : Table :=
@@ -493,6 +497,10 @@ def uxTable (fl : Flags) (sig : Var → Bool) : Table :=
     wrapGet := fun v => v == .edgeLL }
 
 /-! ### methods (ids shared with harness/c08.py) -/
+
+/-- `_slice_face_indices` (every `isel` / `subset.*` / cross section): when `edge_face_distances` is
+    stored it reads the SOURCE grid's `edge_face_connectivity` through its getter -/
+def sliceCond : List (Var × List Var) := [(.efDist, [.edgeFace])]
 
 open Var in
 def uxMethod (fl : Flags) (m : Nat) : Method :=
@@ -509,17 +517,17 @@ def uxMethod (fl : Flags) (m : Nat) : Method :=
   | 20 => { reads := [faceNode], fn := F.methodBase + m,
             peek := [⟨nodeXYZ, F.xyzOfLL, [nodeLL]⟩] }                                 -- to_xarray("exodus")
   | 21 => { reads := [faceNode, nodeLL, areas], fn := F.methodBase + m }               -- to_xarray("scrip")
-  | 22 => { reads := [faceNode, faceEdge], fn := F.methodBase + m }                    -- isel(n_face=…)
-  | 23 => { reads := [nodeFace, faceNode, faceEdge], fn := F.methodBase + m }          -- isel(n_node=…)
-  | 24 => { reads := [edgeFace, faceNode, faceEdge], fn := F.methodBase + m }          -- isel(n_edge=…)
-  | 25 => { reads := [nodeLL, nodeFace, faceNode, faceEdge], fn := F.methodBase + m }  -- subset.* on nodes
-  | 26 => { reads := [faceLL, faceNode, faceEdge], fn := F.methodBase + m }            -- subset.* on face centers
-  | 27 => { reads := [edgeLL, edgeFace, faceNode, faceEdge], fn := F.methodBase + m }  -- subset.* on edge centers
+  | 22 => { reads := [faceNode, faceEdge], fn := F.methodBase + m, whenPresent := sliceCond }                    -- isel(n_face=…)
+  | 23 => { reads := [nodeFace, faceNode, faceEdge], fn := F.methodBase + m, whenPresent := sliceCond }          -- isel(n_node=…)
+  | 24 => { reads := [edgeFace, faceNode, faceEdge], fn := F.methodBase + m, whenPresent := sliceCond }          -- isel(n_edge=…)
+  | 25 => { reads := [nodeLL, nodeFace, faceNode, faceEdge], fn := F.methodBase + m, whenPresent := sliceCond }  -- subset.* on nodes
+  | 26 => { reads := [faceLL, faceNode, faceEdge], fn := F.methodBase + m, whenPresent := sliceCond }            -- subset.* on face centers
+  | 27 => { reads := [edgeLL, edgeFace, faceNode, faceEdge], fn := F.methodBase + m, whenPresent := sliceCond }  -- subset.* on edge centers
   | 28 => { reads := [nodeLL, faceLL, nodeFace, nodeXYZ, faceXYZ], fn := F.methodBase + m }  -- get_dual
   | 29 => { reads := [faceNode], fn := F.methodBase + m }                              -- copy (digest of the copy)
   | 30 => { reads := [enZ, edgeNode], fn := F.methodBase + m }                         -- get_edges_at_constant_latitude
   | 31 => { reads := [enZ, edgeNode, edgeFace], fn := F.methodBase + m }               -- get_faces_at_constant_latitude
-  | 32 => { reads := [enZ, edgeNode, edgeFace, faceNode, faceEdge], fn := F.methodBase + m }  -- cross_section.constant_latitude
+  | 32 => { reads := [enZ, edgeNode, edgeFace, faceNode, faceEdge], fn := F.methodBase + m, whenPresent := sliceCond }  -- cross_section.constant_latitude
   | 33 => { reads := [nPer], fn := F.methodBase + m }                                  -- repr
   | 34 => { reads := [nodeLL, faceNode, areas], fn := F.methodBase + m }               -- validate
   | 35 => { reads := [faceNode], fn := F.methodBase + m }                              -- n_max_face_nodes, n_face, n_node, attrs …
